@@ -308,7 +308,7 @@ pub fn strategy(g: &GenCfg) -> BoxedStrategy<Case> {
             }
             // the select form cancels an arm: the owner itself has no fault there
             let fault = if kind == 1 { 0 } else { fault };
-            Case { fam: "scope".into(), workers, pool, feat, cfg: vec![kind, fault, delay, polls], actors, sched }
+            Case { fam: "scope".into(), workers, pool, feat, cfg: vec![kind, fault, delay, polls], actors, sched, weak: 0 }
         })
         .boxed()
 }
